@@ -358,7 +358,8 @@ def rule_lookups_agree(em, rep, rid):
                   'predicate (lookup or membership test) also consults the variadic key name_n, as query() does - otherwise a '
                   'predicate registered for any number of arguments exists for query() and not for that function')
     n = 0
-    for f in em.YP.methods.values():
+    for f0 in em.YP.methods.values():
+        f = em.view(f0)          # helpers that build the key or do the lookup are pasted in
         exact, var = [], []
         for x in own_nodes_ordered(f.node):
             keyexpr = None
